@@ -15,6 +15,7 @@ import (
 	"strconv"
 	"strings"
 	"sync"
+	"syscall"
 	"testing"
 	"time"
 
@@ -248,14 +249,84 @@ func safeCheck[C any](check func(*C, *Obs) error, c *C, o *Obs) error {
 		}()
 		err = check(c, &lo)
 	}()
+	var out res
+	err := Guard(caseTimeout(), 0, func() error {
+		out = <-ch
+		return nil
+	})
+	if err == ErrTimeBudget {
+		return fmt.Errorf("WATCHDOG: the case is still consuming CPU after %v (endless loop?)\n%s", 6*caseTimeout(), allStacks())
+	}
+	if err != nil {
+		return err
+	}
+	*o = out.o
+	return out.err
+}
+
+// ErrTimeBudget is returned by Guard when f is still running (and still consuming CPU) at the
+// final limit and no reference duration was given: slowness is not a verdict.
+var ErrTimeBudget = errors.New("time budget exhausted")
+
+func cpuTime() time.Duration {
+	var ru syscall.Rusage
+	syscall.Getrusage(syscall.RUSAGE_SELF, &ru)
+	return time.Duration(ru.Utime.Nano() + ru.Stime.Nano())
+}
+
+func allStacks() string {
+	buf := make([]byte, 1<<16)
+	return string(buf[:runtime.Stack(buf, true)])
+}
+
+// Guard runs f and tells a hang from a slow machine. Until `limit` it just waits. After that
+// it samples the CPU time of the process: two consecutive 10 s windows with (almost) no CPU used
+// mean nothing is runnable any more - a deadlock or lost wake-up - and a WATCHDOG error is
+// returned. While the process keeps computing it waits on, up to max(6*limit, 200*ref), where
+// ref is the duration the same work took just before on this machine (0 = unknown): beyond that
+// a WATCHDOG error is returned when ref is known, ErrTimeBudget otherwise.
+func Guard(limit, ref time.Duration, f func() error) error {
+	ch := make(chan error, 1)
+	go func() {
+		defer func() {
+			if p := recover(); p != nil {
+				ch <- fmt.Errorf("panic: %v\n%s", p, debug.Stack())
+			}
+		}()
+		ch <- f()
+	}()
+	start := time.Now()
 	select {
-	case r := <-ch:
-		*o = r.o
-		return r.err
-	case <-time.After(caseTimeout()):
-		buf := make([]byte, 1<<16)
-		n := runtime.Stack(buf, true)
-		return fmt.Errorf("WATCHDOG: the case did not finish within %v (hang?)\n%s", caseTimeout(), buf[:n])
+	case err := <-ch:
+		return err
+	case <-time.After(limit):
+	}
+	final := 6 * limit
+	if 200*ref > final {
+		final = 200 * ref
+	}
+	flat := 0
+	for {
+		c0 := cpuTime()
+		select {
+		case err := <-ch:
+			return err
+		case <-time.After(10 * time.Second):
+		}
+		if cpuTime()-c0 < 30*time.Millisecond {
+			flat++
+		} else {
+			flat = 0
+		}
+		if flat >= 2 {
+			return fmt.Errorf("WATCHDOG: no result after %v and the process has stopped using CPU (deadlock or lost wake-up)\n%s", time.Since(start).Round(time.Second), allStacks())
+		}
+		if time.Since(start) > final {
+			if ref > 0 {
+				return fmt.Errorf("WATCHDOG: still running after %v, more than 200x the %v the same work took just before (livelock?)\n%s", time.Since(start).Round(time.Second), ref, allStacks())
+			}
+			return ErrTimeBudget
+		}
 	}
 }
 
